@@ -94,7 +94,7 @@ func genC10Big(w *out.W, tier string) []job {
 				cps = []cp{{"after-exec", sh[0] / 2}, {"after-exec", sh[0]}, {"before-commit", 1}, {"after-commit", 1}, {"after-exec", total["after-exec"]}}
 			}
 			for _, c := range cps {
-				if c.k < 1 {
+				if c.k < 1 || total[c.p] < c.k { // (no commit points without a transaction)
 					continue
 				}
 				id++
